@@ -145,7 +145,9 @@ impl ShellEnvironment {
     // Iterators/Getters
     //
 
-    /// Returns an iterator over all exported variables defined in the variable.
+    /// Returns an iterator over the variables that are exported to child processes: for each
+    /// name, the innermost binding that is exported and has a value (as in bash, an exported
+    /// binding without a value does not hide an outer exported one from children).
     pub fn iter_exported(&self) -> impl Iterator<Item = (&String, &ShellVariable)> {
         // We won't actually need to store all entries, but we expect it should be
         // within the same order.
@@ -153,7 +155,10 @@ impl ShellEnvironment {
             HashMap::with_capacity(self.entry_count);
 
         for (_, var_map) in self.scopes.iter().rev() {
-            for (name, var) in var_map.iter().filter(|(_, v)| v.is_exported()) {
+            for (name, var) in var_map
+                .iter()
+                .filter(|(_, v)| v.is_exported() && v.value().is_set())
+            {
                 // Only insert the variable if it hasn't been seen yet.
                 if let hash_map::Entry::Vacant(entry) = visible_vars.entry(name) {
                     entry.insert(var);
